@@ -8,6 +8,7 @@ use rdp::model::error::{Error, RdpError, RdpErrorKind};
 pub enum OptFn {
     None,
     Size(String, usize, usize, usize),
+    SizeSat(String, usize, usize, usize),
     SkipIf(String, u64, u64),
     SizeOfSub(String, String),
 }
@@ -31,6 +32,7 @@ impl OptFn {
         match self {
             OptFn::None => "n".into(),
             OptFn::Size(f, a, b, c) => format!("s:{}:{}:{}:{}", f, a, b, c),
+            OptFn::SizeSat(f, a, b, c) => format!("t:{}:{}:{}:{}", f, a, b, c),
             OptFn::SkipIf(f, a, b) => format!("k:{}:{}:{}", f, a, b),
             OptFn::SizeOfSub(f, g) => format!("u:{}:{}", f, g),
         }
@@ -76,6 +78,7 @@ impl<'a> Ps<'a> {
         match self.peek() {
             Some(b'n') => { self.i += 1; Ok(OptFn::None) }
             Some(b's') => { self.i += 1; self.eat(b':')?; let f = self.name(); self.eat(b':')?; let a = self.nat()?; self.eat(b':')?; let b = self.nat()?; self.eat(b':')?; let c = self.nat()?; Ok(OptFn::Size(f, a as usize, b as usize, c as usize)) }
+            Some(b't') => { self.i += 1; self.eat(b':')?; let f = self.name(); self.eat(b':')?; let a = self.nat()?; self.eat(b':')?; let b = self.nat()?; self.eat(b':')?; let c = self.nat()?; Ok(OptFn::SizeSat(f, a as usize, b as usize, c as usize)) }
             Some(b'k') => { self.i += 1; self.eat(b':')?; let f = self.name(); self.eat(b':')?; let a = self.nat()?; self.eat(b':')?; let b = self.nat()?; Ok(OptFn::SkipIf(f, a, b)) }
             Some(b'u') => { self.i += 1; self.eat(b':')?; let f = self.name(); self.eat(b':')?; let g = self.name(); Ok(OptFn::SizeOfSub(f, g)) }
             _ => Err("optfn".into()),
@@ -127,6 +130,7 @@ fn mk_filter_int<T: 'static, G: Fn(&T) -> u64 + Send + 'static>(f: &OptFn, get: 
     match f.clone() {
         OptFn::None => Box::new(|_| MessageOption::None),
         OptFn::Size(fld, mul, add, sub) => Box::new(move |x| MessageOption::Size(fld.clone(), get(x) as usize * mul + add - sub)),
+        OptFn::SizeSat(fld, mul, add, sub) => Box::new(move |x| MessageOption::Size(fld.clone(), (get(x) as usize * mul + add).saturating_sub(sub))),
         OptFn::SkipIf(fld, set, clear) => Box::new(move |x| { let v = get(x); if v & set == 0 || v & clear != 0 { MessageOption::SkipField(fld.clone()) } else { MessageOption::None } }),
         OptFn::SizeOfSub(_, _) => panic!("harness: sizeOfSub on an integer"),
     }
